@@ -223,6 +223,11 @@ pub fn minimise(env: &Env, start: MiniWorld, item: Option<Item>, d0: Divergence,
             }
         }
     }
+    if cur.bad.alt_build != r.alt_build {
+        let mut c = cur.clone();
+        c.bad.alt_build = r.alt_build;
+        attempt!("same build of the expander as the reference host", c);
+    }
     if cur.bad.warm_disk != r.warm_disk {
         let mut c = cur.clone();
         c.bad.warm_disk = r.warm_disk;
